@@ -83,6 +83,7 @@ type Config struct {
 	ExemptOrigin map[string]bool
 	OriginOf     map[*ssa.Function]string // results of these functions carry an origin tag (opaque mode)
 	NoInit       bool
+	LoopUnroll   int // enumerate (instead of join) data-dependent loop exit tests, at most this many times per loop
 }
 
 type Interp struct {
@@ -108,6 +109,7 @@ type Interp struct {
 	nreads       int
 	inputRoots   []*Cell
 	PowApplied   []*ssa.Function
+	loopIter     map[*ssa.BasicBlock]int
 }
 
 type oracle struct {
@@ -136,7 +138,7 @@ var debugCalls = os.Getenv("SVDEBUG") != ""
 // New creates an interpreter and runs the module's package initialisers.
 func New(p *load.Prog, cfg Config) *Interp {
 	it := &Interp{P: p, Cfg: cfg, assume: map[*PAtom]bool{}, bind: map[*IAtom]*Term{}, cfgs: map[*ssa.Function]*cfgInfo{},
-		globals: map[*ssa.Global]*Object{}, joining: map[*ssa.BasicBlock]int{}, FuncsEntered: map[*ssa.Function]int{}}
+		globals: map[*ssa.Global]*Object{}, joining: map[*ssa.BasicBlock]int{}, FuncsEntered: map[*ssa.Function]int{}, loopIter: map[*ssa.BasicBlock]int{}}
 	if it.Cfg.MaxSteps == 0 {
 		it.Cfg.MaxSteps = 20_000_000
 	}
@@ -481,6 +483,18 @@ func (fr *Frame) branch(blk *ssa.BasicBlock, x *ssa.If, stop *ssa.BasicBlock) (e
 	}
 	info := it.cfg(fr.fn)
 	join := it.Cfg.JoinAll || fr.inLoop || info.inLoop[blk]
+	if join && it.Cfg.LoopUnroll > 0 && info.inLoop[blk] && !fr.inLoop {
+		// a loop exit test: one successor cannot come back to this block
+		if !info.reach[blk.Succs[0]][blk] || !info.reach[blk.Succs[1]][blk] {
+			if _, isPred := cond.(PredV); isPred {
+				it.loopIter[blk]++
+				if it.loopIter[blk] > it.Cfg.LoopUnroll {
+					it.abortf("loop-cap: data-dependent loop in %s unrolled %d times", fr.fn.Name(), it.Cfg.LoopUnroll)
+				}
+				join = false
+			}
+		}
+	}
 	if top, isTop := cond.(Top); isTop && !join {
 		it.event("top-branch", fr.fn, ifPos(x), "branch on an unknown value (%s)", top.Why)
 		join = true
